@@ -5,6 +5,7 @@
 //!   PARSE    (scalar, offered value (None = absent), what parse answered)
 //!   TV       (scalar, Rust value, what to_value produced, what parsing that produced)
 //!   SWEEP    (int row id, lo, run-length encoded answers for the integers lo, lo+1, ..)
+//!   E2E      (scalar, route, value as the pipeline saw it, what Schema::execute echoed) — static echo schema
 //!   SWEEPTV  (int row id, lo, run-length encoded (to_value, parse-back) for all values lo, lo+1, ..)
 use std::fmt::Write as _;
 use std::num::*;
@@ -13,7 +14,7 @@ use std::sync::Arc;
 
 use agv_harness::*;
 use async_graphql::resolver_utils::EnumType;
-use async_graphql::{Enum, ID, InputType, InputValueResult, Name, Number, Value};
+use async_graphql::{EmptyMutation, EmptySubscription, Enum, ID, InputType, InputValueResult, Name, Number, Object, Request, Schema, Value, Variables};
 
 // ------------------------------------------------------------------ printers --
 fn g_n(n: u64) -> String {
@@ -270,6 +271,155 @@ fn scalars() -> Vec<Desc> {
     other!(Color, g_enum::<Color>(|c| c as u64));
     other!(Mode, g_enum::<Mode>(|c| c as u64));
     v
+}
+
+// ---------------------------------------------------------------- end to end --
+/// One echo field per scalar mapping, in the order of `scalars()`: field `f<i>`.
+struct Query;
+
+#[Object]
+impl Query {
+    async fn f0(&self, v: i8) -> i8 { v }
+    async fn f1(&self, v: i16) -> i16 { v }
+    async fn f2(&self, v: i32) -> i32 { v }
+    async fn f3(&self, v: i64) -> i64 { v }
+    async fn f4(&self, v: isize) -> isize { v }
+    async fn f5(&self, v: u8) -> u8 { v }
+    async fn f6(&self, v: u16) -> u16 { v }
+    async fn f7(&self, v: u32) -> u32 { v }
+    async fn f8(&self, v: u64) -> u64 { v }
+    async fn f9(&self, v: usize) -> usize { v }
+    async fn f10(&self, v: NonZeroI8) -> NonZeroI8 { v }
+    async fn f11(&self, v: NonZeroI16) -> NonZeroI16 { v }
+    async fn f12(&self, v: NonZeroI32) -> NonZeroI32 { v }
+    async fn f13(&self, v: NonZeroI64) -> NonZeroI64 { v }
+    async fn f14(&self, v: NonZeroIsize) -> NonZeroIsize { v }
+    async fn f15(&self, v: NonZeroU8) -> NonZeroU8 { v }
+    async fn f16(&self, v: NonZeroU16) -> NonZeroU16 { v }
+    async fn f17(&self, v: NonZeroU32) -> NonZeroU32 { v }
+    async fn f18(&self, v: NonZeroU64) -> NonZeroU64 { v }
+    async fn f19(&self, v: NonZeroUsize) -> NonZeroUsize { v }
+    async fn f20(&self, v: f32) -> f32 { v }
+    async fn f21(&self, v: f64) -> f64 { v }
+    async fn f22(&self, v: bool) -> bool { v }
+    async fn f23(&self, v: String) -> String { v }
+    async fn f24(&self, v: Box<str>) -> String { v.into() }
+    async fn f25(&self, v: Arc<str>) -> String { v.to_string() }
+    async fn f26(&self, v: char) -> char { v }
+    async fn f27(&self, v: ID) -> ID { v }
+    async fn f28(&self, v: Color) -> Color { v }
+    async fn f29(&self, v: Mode) -> Mode { v }
+}
+
+/// GraphQL type name of the scalar at index `i` of `scalars()`.
+fn gql_type(i: usize) -> &'static str {
+    match i {
+        0..=19 => "Int",
+        20 | 21 => "Float",
+        22 => "Boolean",
+        23..=25 => "String",
+        26 => "Char",
+        27 => "ID",
+        28 => "Color",
+        _ => "Mode",
+    }
+}
+
+/// GraphQL literal text of a value (strings with JSON escapes, which are GraphQL escapes).
+fn literal(v: &Value) -> Option<String> {
+    Some(match v {
+        Value::Null => "null".into(),
+        Value::Number(n) if n.is_f64() => format!("{:?}", n.as_f64().unwrap()),
+        Value::Number(n) => n.to_string(),
+        Value::String(s) => serde_json::to_string(s).unwrap(),
+        Value::Boolean(b) => b.to_string(),
+        Value::Enum(n) => {
+            let ok = !n.is_empty()
+                && n.chars().all(|c| c.is_ascii_alphanumeric() || c == '_')
+                && !n.chars().next().unwrap().is_ascii_digit()
+                && !matches!(n.as_str(), "true" | "false" | "null");
+            if !ok {
+                return None;
+            }
+            n.to_string()
+        }
+        Value::Binary(_) => return None,
+        Value::List(l) => format!("[{}]", l.iter().map(literal).collect::<Option<Vec<_>>>()?.join(", ")),
+        Value::Object(m) => format!(
+            "{{{}}}",
+            m.iter().map(|(k, x)| literal(x).map(|t| format!("{}: {}", k, t))).collect::<Option<Vec<_>>>()?.join(", ")
+        ),
+    })
+}
+
+const ROUTES: [&str; 3] = ["literal", "variable", "variable default"];
+
+/// Runs one value through `Schema::execute`.  Returns the case line, or None
+/// when the value cannot be supplied by this route (then nothing is claimed).
+fn e2e_case(schema: &Schema<Query, EmptyMutation, EmptySubscription>, d: &Desc, idx: usize, route: usize, v: Option<Value>) -> Option<String> {
+    use async_graphql::parser::types::{DocumentOperations, Selection};
+    let field = format!("f{idx}");
+    let ty = gql_type(idx);
+    let (query, vars): (String, Variables) = match (route, &v) {
+        (0, None) => (format!("{{ {field} }}"), Variables::default()),
+        (0, Some(x)) => (format!("{{ {field}(v: {}) }}", literal(x)?), Variables::default()),
+        (1, None) => (format!("query($v: {ty}!) {{ {field}(v: $v) }}"), Variables::default()),
+        (1, Some(x)) => {
+            if matches!(x, Value::Enum(_) | Value::Binary(_)) {
+                return None; // not expressible in JSON
+            }
+            let mut m = indexmap::IndexMap::new();
+            m.insert(Name::new("v"), x.clone());
+            (format!("query($v: {ty}!) {{ {field}(v: $v) }}"), Variables::from_value(Value::Object(m)))
+        }
+        (_, None) => return None,
+        (_, Some(x)) => (format!("query($v: {ty}! = {}) {{ {field}(v: $v) }}", literal(x)?), Variables::default()),
+    };
+    // what the pipeline sees is the value as the real parser read it
+    let seen: Option<Value> = match route {
+        1 => v.clone(),
+        _ => {
+            let doc = async_graphql::parser::parse_query(&query).ok()?;
+            let op = match &doc.operations {
+                DocumentOperations::Single(op) => &op.node,
+                DocumentOperations::Multiple(m) => &m.values().next()?.node,
+            };
+            if route == 0 {
+                match &op.selection_set.node.items.first()?.node {
+                    Selection::Field(f) => match f.node.arguments.first() {
+                        Some((_, val)) => Some(val.node.clone().into_const()?),
+                        None => None,
+                    },
+                    _ => return None,
+                }
+            } else {
+                Some(op.variable_definitions.first()?.node.default_value.as_ref()?.node.clone())
+            }
+        }
+    };
+    let resp = catch(AssertUnwindSafe(|| block_on(schema.execute(Request::new(query.clone()).variables(vars)))));
+    let (r, rs) = match resp {
+        None => ("Panic".to_string(), "panic".to_string()),
+        Some(resp) if !resp.errors.is_empty() => ("(Err 0%N)".to_string(), format!("Err({})", resp.errors[0].message)),
+        Some(resp) => match &resp.data {
+            Value::Object(m) => match m.get(field.as_str()) {
+                Some(x) => (format!("(Ok {})", g_gv(x)), format!("Ok({})", show_gv(&Some(x.clone())))),
+                None => ("Panic".to_string(), "no data".to_string()),
+            },
+            _ => ("Panic".to_string(), "no data".to_string()),
+        },
+    };
+    let text = format!("{} <- {} via {} [{}]", d.name, show_gv(&seen), ROUTES[route], query);
+    Some(format!(
+        "E2E\t({}, {}, {}, {})\t{{\"text\":{},\"impl\":{},\"nontrivial\":{}}}\n",
+        d.coq,
+        g_n(route as u64),
+        g_opt(seen.as_ref(), g_gv),
+        r,
+        jstr(&text),
+        jstr(&rs),
+        r.starts_with("(Ok")
+    ))
 }
 
 // -------------------------------------------------------------------- values --
@@ -746,6 +896,70 @@ fn main() {
                 6 => out.tv_case::<u64>("u64", "(SInt 8%N)", &rng.next()),
                 _ => out.tv_case::<f32>("f32", "SF32", &(rand_f64(&mut rng) as f32)),
             }
+        }
+    }
+    // ---- end to end: the same values through Schema::execute, three supply routes
+    let schema = Schema::build(Query, EmptyMutation, EmptySubscription).finish();
+    let extra_strings = ["\u{e9}", "\u{df}", "\u{416}", "\u{20ac}", "\u{4e2d}", "\u{1F600}", "\u{10FFFF}", "\u{80}", "\u{7f}", "\u{7ff}", "\u{800}", "\u{ffff}", "\u{10000}", "e\u{301}", "\u{e9}\u{e9}", "\u{1F1E9}\u{1F1EA}", "\u{200d}", "ab\u{e9}"];
+    for (idx, d) in scs.iter().enumerate() {
+        let numeric = d.int.is_some() || matches!(d.name, "f32" | "f64");
+        let is_float = matches!(d.name, "f32" | "f64");
+        // few values: every route; the other scalars rotate the route over their corpus
+        let all_routes = matches!(d.name, "char" | "ID" | "String");
+        let mut vals: Vec<Option<Value>> = vec![];
+        for z in ints.iter().step_by(if d.int.is_some() { 1 } else if is_float { 3 } else if d.name == "ID" { 2 } else { 11 }) {
+            vals.push(Some(vint(*z)));
+        }
+        for f in floats.iter().step_by(if is_float { 1 } else if numeric { 4 } else { 9 }) {
+            vals.push(vfloat(*f));
+        }
+        for s in strings.iter().step_by(if numeric { 6 } else { 1 }) {
+            vals.push(Some(Value::String((*s).into())));
+        }
+        if !numeric {
+            for s in extra_strings {
+                vals.push(Some(Value::String(s.into())));
+            }
+        }
+        for v in others.iter().step_by(if numeric { 4 } else { 1 }) {
+            vals.push(v.clone());
+        }
+        if d.name == "char" {
+            for c in (0u8..128).step_by(3) {
+                vals.push(Some(Value::String((c as char).to_string())));
+            }
+            for _ in 0..40 {
+                vals.push(Some(Value::String(rand_char(&mut rng).to_string())));
+            }
+        }
+        for (k, v) in vals.into_iter().enumerate() {
+            for route in 0..3 {
+                if all_routes || (k + idx) % 3 == route {
+                    if let Some(line) = e2e_case(&schema, d, idx, route, v.clone()) {
+                        out.s.push_str(&line);
+                    }
+                }
+            }
+        }
+    }
+    // random values, random route
+    for i in 0..(n / 3) {
+        let idx = if i % 4 == 0 { 26 } else { rng.below(scs.len()) };
+        let d = &scs[idx];
+        let v: Option<Value> = match d.int {
+            Some((_, lo, hi, _)) => {
+                if rng.chance(4, 5) { Some(vint(rand_int(&mut rng, lo, hi))) } else { vfloat(rand_int(&mut rng, lo, hi) as f64) }
+            }
+            None if idx == 20 || idx == 21 => {
+                if rng.chance(2, 3) { vfloat(rand_f64(&mut rng)) } else { Some(vint(rand_int(&mut rng, -P63, P64 - 1))) }
+            }
+            None if idx == 27 => {
+                if rng.chance(1, 2) { Some(vint(rand_int(&mut rng, -P63, P64 - 1))) } else { Some(Value::String(rand_string(&mut rng))) }
+            }
+            None => Some(Value::String(if idx == 26 && rng.chance(2, 3) { rand_char(&mut rng).to_string() } else { rand_string(&mut rng) })),
+        };
+        if let Some(line) = e2e_case(&schema, d, idx, rng.below(3), v) {
+            out.s.push_str(&line);
         }
     }
     std::fs::write(format!("{}/c07.cases", a.out), out.s).unwrap();
